@@ -195,13 +195,23 @@ def c11(tier):
 def c17(tier):
     combos = [(1, 0), (2, 0), (2, 1)] if tier == "quick" else [(1, 0), (2, 0), (2, 1), (3, 0)]
     jobs = [Job("h_c11::adapter_contract", c, {"hash_order": "fixed"}, budget_s=3000, validate=40) for c in combos]
+    # directory backend over the file-system model, Deflate wrapper over memory / directory (codec abstracted)
+    more = [(0, 1, 5), (1, 1, 5), (2, 1, 5), (1, 2, 5, 2), (0, 2, 4, 2)] if tier == "quick" else [(0, 1, 5), (1, 1, 5), (2, 1, 5), (1, 2, 5), (0, 2, 5, 2), (2, 2, 4, 2), (0, 2, 4)]
+    for c in more:
+        jobs.append(Job("h_c17::backend_contract", c, {"hash_order": "fixed"}, budget_s=3000, validate=30))
     return dict(jobs=jobs, bounds={"operations": "1..3 writes (the later ones may hit an existing key) with symbolic keys <word{1,2}>[.delta|.pack|.delta.delta] and symbolic contents of 0..3 printable bytes; whole reads; "
                                                  "one ranged read with symbolic offset 0..4 and length 1..4; read of a missing key; listing by '', '.delta', '.pack'",
-                                   "backends": "MemoryAdapter directly and through the Arc<RwLock<Box<dyn Adapter>>> wrapper (adapter.rs)",
-                                   "combos [writes, through wrapper]": [list(c) for c in combos]},
-                assumptions=["only the memory backend and the DynAdapter wrapper are covered: the directory, SQLite and Solid backends and the Deflate / Brotli codecs are behind file-system I/O, FFI, "
-                             "network or compression loops that this technique cannot encode (stated N/A part)"],
-                note="memoryadapter.rs + adapter.rs (impl Adapter for DynAdapter) from MIR; reference model in the harness")
+                                   "backends": "MemoryAdapter directly and through the Arc<RwLock<Box<dyn Adapter>>> wrapper (adapter.rs); FilesystemAdapter over an ideal in-memory file-system model incl. a second instance on the "
+                                               "same directory; Flate2Adapter over MemoryAdapter and over FilesystemAdapter with the Deflate codec abstracted to an invertible framing",
+                                   "combos [writes, through wrapper]": [list(c) for c in combos],
+                                   "other backends [backend 0 = directory / 1 = Deflate+memory / 2 = Deflate+directory, writes, key suffix kinds (5 adds '.flate'), longest key stem]": [list(c) for c in more],
+                                   "keys of the other backends": "<word{2,3}>[.delta|.pack|.delta.delta|.flate] (the directory backend shards by the first two bytes of the key; shorter keys are outside the claim)"},
+                assumptions=["the file system is ideal: operations are atomic and fail only for logical reasons (missing file / directory, read past the end); permissions, disk-full, interrupted writes, case-insensitive or "
+                             "normalising file systems and concurrent processes are outside the claim",
+                             "Deflate is abstracted to an invertible framing (compress(x) = marker ++ x; a stream without the marker fails to decode): the compression algorithm itself is not executed",
+                             "out-of-range ranged reads through the Deflate wrapper are outside the claim (the contract promises in-range slices only)",
+                             "the SQLite and Solid backends and the Brotli codec are not in the default build and sit behind FFI / network: not applicable to this technique (stated N/A part)"],
+                note="memoryadapter.rs, adapter.rs (impl Adapter for DynAdapter), filesystemadapter.rs, flate2adapter.rs from MIR; std::fs / std::path / std::io and flate2 replaced by models (mirsym/models_fs.py); reference model in the harness")
 
 
 def c18(tier):
